@@ -740,6 +740,75 @@ pub fn build_variant(p: &Value, variant: &str) -> Option<R<Box<dyn Pk>>> {
     }
 }
 
+/// The public post-construction rewrites of a v5.0 PUBLISH (used by the connection for automatic topic-alias
+/// mapping and store regulation): every applicable one, applied to the packet built from `p`.
+fn rewrites_w<W: WId>(p: &Value) -> R<Vec<(&'static str, Box<dyn Pk>)>> {
+    let q = qos_of(p["qos"].as_u64().unwrap_or(0))?;
+    let topic = text(&p["topic"])?;
+    let mk = || -> R<v5::GenericPublish<W>> {
+        let mut b = v5::GenericPublish::<W>::builder().topic_name(topic.as_str()).map_err(e)?.qos(q)
+            .dup(p["dup"].as_bool().unwrap_or(false)).retain(p["retain"].as_bool().unwrap_or(false)).payload(runs_to_bytes(&p["payload"]));
+        if let Some(x) = opt(&p["pid"]) {
+            b = b.packet_id(W::from_hl(x)?);
+        }
+        if !p["props"].as_array().map_or(true, |a| a.is_empty()) {
+            b = b.props(mk_props(&p["props"])?);
+        }
+        b.build().map_err(e)
+    };
+    let has_alias = p["props"].as_array().map_or(false, |a| a.iter().any(|x| x["id"].as_u64() == Some(35)));
+    let mut out: Vec<(&'static str, Box<dyn Pk>)> = Vec::new();
+    if !has_alias {
+        out.push(("add_topic_alias", bx(mk()?.add_topic_alias(7))));
+        if !topic.is_empty() {
+            out.push(("remove_topic_add_topic_alias", bx(mk()?.remove_topic_add_topic_alias(7))));
+        }
+    } else {
+        out.push(("remove_topic_alias", bx(mk()?.remove_topic_alias())));
+        out.push(("remove_topic_alias_add_topic", bx(mk()?.remove_topic_alias_add_topic("tt".to_string()).map_err(e)?)));
+        if topic.is_empty() {
+            out.push(("add_extracted_topic_name", bx(mk()?.add_extracted_topic_name("tt").map_err(e)?)));
+        }
+    }
+    Ok(out)
+}
+
+/// For a v5.0 PUBLISH whose LAST property is a Topic Alias: the same packet obtained by building it without that
+/// property and then calling `add_topic_alias` (must serialise to the reference bytes of `p`). `None` = not applicable.
+pub fn publish_via_add_alias(p: &Value) -> Option<R<Box<dyn Pk>>> {
+    if p["k"].as_str() != Some("publish") || p["v"].as_str() != Some("v50") {
+        return None;
+    }
+    let props = p["props"].as_array()?;
+    let last = props.last()?;
+    if last["id"].as_u64() != Some(35) || props.iter().filter(|x| x["id"].as_u64() == Some(35)).count() != 1 {
+        return None;
+    }
+    let alias = num_of(&last["n"]) as u16;
+    let mut q = p.clone();
+    q["props"] = Value::Array(props[..props.len() - 1].to_vec());
+    fn go<W: WId>(q: &Value, alias: u16) -> R<Box<dyn Pk>> {
+        let qos = qos_of(q["qos"].as_u64().unwrap_or(0))?;
+        let mut b = v5::GenericPublish::<W>::builder().topic_name(text(&q["topic"])?.as_str()).map_err(e)?.qos(qos)
+            .dup(q["dup"].as_bool().unwrap_or(false)).retain(q["retain"].as_bool().unwrap_or(false)).payload(runs_to_bytes(&q["payload"]));
+        if let Some(x) = opt(&q["pid"]) {
+            b = b.packet_id(W::from_hl(x)?);
+        }
+        if !q["props"].as_array().map_or(true, |a| a.is_empty()) {
+            b = b.props(mk_props(&q["props"])?);
+        }
+        Ok(bx(b.build().map_err(e)?.add_topic_alias(alias)))
+    }
+    Some(if p["w"].as_u64() == Some(32) { go::<u32>(&q, alias) } else { go::<u16>(&q, alias) })
+}
+
+pub fn publish_rewrites(p: &Value) -> R<Vec<(&'static str, Box<dyn Pk>)>> {
+    if p["k"].as_str() != Some("publish") || p["v"].as_str() != Some("v50") {
+        return Ok(vec![]);
+    }
+    if p["w"].as_u64() == Some(32) { rewrites_w::<u32>(p) } else { rewrites_w::<u16>(p) }
+}
+
 /// Build with the public builders. `Err` = the builder path refused (or the value cannot even be
 /// expressed in the builder's argument types).
 pub fn build(p: &Value) -> R<Box<dyn Pk>> {
